@@ -1,5 +1,6 @@
 """C01 - label indexing returns exactly the data stored at those labels."""
 import copy
+from fractions import Fraction
 import numpy as np
 import core, gen
 from core import da, DimArray
@@ -102,13 +103,64 @@ def make_key(c):
         else:
             dpos = k[1] % len(dims) if dims and -len(dims) <= k[1] < len(dims) else None
         return ("axis", conv(idx["ix"], dpos), k[1]), kw
+    if idx["form"] == "axes":
+        # an Axes object as index: one Axis (name, requested labels / positions) per addressed dimension, in any order
+        from dimarray.core.axes import Axes
+        A = Axes()
+        for k, x in idx["items"]:
+            dpos = dims.index(k[1]) if k[1] in dims else None
+            kind = "i" if posmode or dpos is None else axes[dpos]["kind"]
+            A.append(core.Axis(core.label_array(x[1], kind), k[1]))
+        return ("axes", A), kw
     raise ValueError("bad case %r" % (c,))
+
+
+def nd_mask(a, c):
+    """the full-shape boolean index of the case: an ndarray, or a DimArray on the same axes (what `a > x` is)"""
+    idx = c["index"]
+    m = np.array(idx["mask"], dtype=bool).reshape(a.shape)
+    if idx.get("as") == "dimarray":
+        m = DimArray(m, axes=[core.Axis(ax.values.copy(), ax.name) for ax in a.axes])
+    return m
 
 
 def call_take(a, c):
     """perform the read described by the case on the real array"""
     sp = c["spelling"]
+    if c["index"]["form"] == "boolnd":
+        m = nd_mask(a, c)
+        kw = {"keepdims": True} if c.get("keepdims") else {}
+        if sp in ("getitem", "getitem_position_option"):
+            return a[m]
+        if sp in ("loc", "nloc", "ix", "iloc"):
+            return getattr(a, sp)[m]
+        if sp == "ix_from_position":
+            return a.ix[m]
+        if sp == "take":
+            return a.take(m, **kw)
+        if sp == "take_label":
+            return a.take(m, indexing="label", **kw)
+        if sp == "take_position":
+            return a.take(m, indexing="position", **kw)
+        if sp == "compress":
+            return a.compress(m)
+        raise ValueError("bad case %r" % (c,))
     k, kw = make_key(c)
+    if k[0] == "axes":
+        A = k[1]
+        if sp in ("getitem", "getitem_position_option"):
+            return a[A]
+        if sp in ("loc", "nloc", "ix", "iloc"):
+            return getattr(a, sp)[A]
+        if sp == "ix_from_position":
+            return a.ix[A]
+        if sp == "take":
+            return a.take(A, **kw)
+        if sp == "take_label":
+            return a.take(A, indexing="label", **kw)
+        if sp == "take_position":
+            return a.take(A, indexing="position", **kw)
+        raise ValueError("bad case %r" % (c,))
     if k[0] == "tuple":
         key = k[1]
         if sp in ("getitem", "getitem_position_option"):
@@ -137,10 +189,18 @@ def call_take(a, c):
             return a.take(d, indexing="position", **kw)
         if sp == "loc":
             return a.loc[d]
+        if sp == "nloc":
+            return a.nloc[d]
+        if sp == "iloc":
+            return a.iloc[d]
+        if sp == "take_label":
+            return a.take(d, indexing="label", **kw)
         return a.take(d, **kw)
     if k[0] == "axis":
         if sp == "take_position":
             kw["indexing"] = "position"
+        if sp == "take_label":
+            kw["indexing"] = "label"
         return a.take(k[1], axis=k[2], **kw)
     raise ValueError("bad case %r" % (c,))
 
@@ -204,6 +264,391 @@ def cfg_of(c):
     return cfg
 
 
+# ------------------------------------------------------------------------------------------------
+# building the array of a case (per-axis tolerance, warmed ordering cache)
+# ------------------------------------------------------------------------------------------------
+
+def tol_value(t):
+    """encoded tolerance -> python number (None when absent)"""
+    if t is None:
+        return None
+    return np.inf if t[0] == "inf" else float(Fraction(t[1], t[2]))
+
+
+def build_case_array(c):
+    """core.build_array + what it does not know about: `Axis(values, name, tol=...)` for the axes that carry
+    a "tol" field, and `warm` (every axis has been asked for its ordering before the read)"""
+    a = core.build_array(c["array"], 0)
+    if any(ax.get("tol") is not None for ax in c["array"]["axes"]):
+        axes = []
+        for ad, ax in zip(c["array"]["axes"], a.axes):
+            if ad.get("tol") is not None:
+                ax = core.Axis(ax.values, ax.name, tol=tol_value(ad["tol"]), **ax.attrs)
+            axes.append(ax)
+        b = DimArray(a.values, axes=axes)
+        b.attrs.update(a.attrs)
+        a = b
+    if c.get("warm"):
+        for ax in a.axes:
+            ax.is_monotonic()
+    return a
+
+
+# ------------------------------------------------------------------------------------------------
+# the oracle: what the statements of C01 (and C02 for slices) demand of a read, computed on exact rationals
+# from the case alone (no library code involved besides building the operand to get at its cell values)
+# ------------------------------------------------------------------------------------------------
+
+class Undecided(Exception):
+    """the statement does not speak about this input (ill-formed index, unspecified combination)"""
+
+
+class Demands(Exception):
+    """the statement demands an exception; cls = its class, or None when the class is not stated"""
+    def __init__(self, cls):
+        Exception.__init__(self, cls)
+        self.cls = cls
+
+
+INF = "inf"
+
+
+def _fr(e):
+    return Fraction(e[1], e[2])
+
+
+def _same_label(x, y):
+    if x[0] == "n" and y[0] == "n":
+        return _fr(x) == _fr(y)
+    return x[0] == y[0] and x[1] == y[1]
+
+
+def effective_mode(c):
+    """label / position, from the spelling and the option (a[...] / take follow the option, .loc / .sel / indexing='label'
+    and .iloc / .isel / indexing='position' keep their meaning, .ix toggles)"""
+    sp, opt = c["spelling"], c["option"]
+    if sp in ("loc", "sel", "take_label", "nloc"):
+        return "label"
+    if sp in ("iloc", "isel", "take_position"):
+        return "position"
+    if sp in ("ix", "ix_from_position"):
+        return "label" if opt == "position" else "position"
+    return opt
+
+
+def call_tol(c):
+    """tolerance given with the call: None | INF | Fraction"""
+    if c["spelling"] == "nloc":
+        return INF
+    t = c.get("tol")
+    if t is None:
+        return None
+    return INF if t[0] == "inf" else Fraction(t[1], t[2])
+
+
+def axis_tol(ax):
+    t = ax.get("tol")
+    if t is None:
+        return None
+    return INF if t[0] == "inf" else Fraction(t[1], t[2])
+
+
+def find_label(labels, kind, v, tol):
+    """set of acceptable positions of the requested label (several only when two labels are equally near)"""
+    numeric = kind in ("i", "f", "u")
+    if tol is not None and numeric:
+        if v[0] != "n":
+            raise Undecided()
+        if not labels:
+            # TODO(defect): nearest-label access on an empty axis raises ValueError (np.argmin of an empty sequence)
+            # where the statement asks for IndexError; any exception is accepted here until this is decided
+            raise Demands(None)
+        x = _fr(v)
+        dist = [abs(_fr(l) - x) for l in labels]
+        m = min(dist)
+        if tol != INF and m > tol:
+            raise Demands("index")
+        return {p for p, dd in enumerate(dist) if dd == m}
+    if v[0] == "N":
+        raise Undecided()
+    hits = [p for p, l in enumerate(labels) if _same_label(l, v)]
+    if not hits:
+        raise Demands("index")
+    return {hits[0]}
+
+
+def slice_positions(labels, kind, s, e, st, tol_given=False):
+    """C02: positions selected by the label slice s:e:st"""
+    k = 1 if st is None else st
+    if k == 0:
+        raise Undecided()
+    n = len(labels)
+    numeric = kind in ("i", "f", "u") and all(l[0] == "n" for l in labels)
+    L = [_fr(l) for l in labels] if numeric else None
+    mono = numeric and (all(L[i] <= L[i + 1] for i in range(n - 1)) or all(L[i] >= L[i + 1] for i in range(n - 1)))
+    if mono:
+        for b in (s, e):
+            if b is not None and b[0] != "n":
+                raise Undecided()
+        inc = n == 0 or L[-1] >= L[0]
+        first, last = (s, e) if k > 0 else (e, s)
+        lo, hi = (first, last) if inc else (last, first)
+        lo = None if lo is None else _fr(lo)
+        hi = None if hi is None else _fr(hi)
+        sel = [p for p in range(n) if (lo is None or lo <= L[p]) and (hi is None or L[p] <= hi)]
+    else:
+        def find(b):
+            if b is None:
+                return None
+            hits = [p for p, l in enumerate(labels) if _same_label(l, b)]
+            if not hits:
+                if tol_given:
+                    raise Undecided()       # neither statement says what a tolerance means for the bound of a slice
+                raise Demands(None)         # "both bounds must be existing labels" (class of the error not stated)
+            return hits[0]
+        i, j = find(s), find(e)
+        if k > 0:
+            sel = [p for p in range(n) if (i is None or i <= p) and (j is None or p <= j)]
+        else:
+            sel = [p for p in range(n) if (j is None or j <= p) and (i is None or p <= i)]
+    if k < 0:
+        sel.reverse()
+    return sel[::abs(k)]
+
+
+def resolve_dim(ixj, ax, mode, tol, zero_len=False, scalar=True):
+    """('sc', {positions}) | ('li', [{positions}, ...]) for one dimension"""
+    labels, kind = ax["labels"], ax["kind"]
+    n = len(labels)
+    t = ixj[0]
+    if t == "ma":
+        if len(ixj[1]) != n:
+            raise Undecided()
+        return ("li", [{p} for p, b in enumerate(ixj[1]) if b])
+    if t == "sl" and ixj[1] is None and ixj[2] is None and ixj[3] is None:
+        return ("li", [{p} for p in range(n)])
+    if mode == "position":
+        def pos(e):
+            if e[0] != "n" or e[2] != 1:
+                raise Undecided()
+            return e[1]
+        def one(e, scalar=False):
+            k = pos(e)
+            if not -n <= k < n:
+                if zero_len and not scalar:
+                    # NumPy's bounds check of an index array next to a zero-length dimension depends on how the
+                    # orthogonal index is spelled: "the same NumPy index" is not determined
+                    raise Undecided()
+                raise Demands("index")          # what NumPy does with the same index on .values
+            return {k % n}
+        if t == "sc":
+            return ("sc", one(ixj[1], scalar is True))      # (NumPy checks an integer index whatever the other dimensions)
+        if t == "li":
+            return ("li", [one(e) for e in ixj[1]])
+        if t == "sl":
+            if ixj[3] == 0:
+                raise Undecided()
+            sl = slice(None if ixj[1] is None else pos(ixj[1]), None if ixj[2] is None else pos(ixj[2]), ixj[3])
+            return ("li", [{p} for p in list(range(n))[sl]])
+        raise Undecided()
+    if t == "sc":
+        return ("sc", find_label(labels, kind, ixj[1], tol))
+    if t == "li":
+        return ("li", [find_label(labels, kind, v, tol) for v in ixj[1]])
+    if t == "sl":
+        return ("li", [{p} for p in slice_positions(labels, kind, ixj[1], ixj[2], ixj[3], tol is not None)])
+    raise Undecided()
+
+
+def per_dim_indices(c):
+    """the index of the case as one entry per dimension (None = not addressed = full)"""
+    axes = c["array"]["axes"]
+    nd = len(axes)
+    dims = [x["name"] for x in axes]
+    idx = c["index"]
+    out = [None] * nd
+    if idx["form"] == "tuple":
+        ixs = idx["ix"]
+        if sum(1 for x in ixs if x[0] == "el") > 1:
+            raise Undecided()
+        exp = []
+        for x in ixs:
+            if x[0] == "el":
+                exp.extend([None] * (nd + 1 - len(ixs)))
+            else:
+                exp.append(x)
+        if len(exp) > nd:
+            raise Undecided()               # more indices than dimensions: not an index of this array
+        for d, x in enumerate(exp):
+            out[d] = x
+        return out
+    if idx["form"] in ("dict", "axes"):
+        for k, x in idx["items"]:
+            if k[0] == "name":
+                if k[1] not in dims:
+                    raise Undecided()
+                d = dims.index(k[1])
+            else:
+                if not -nd <= k[1] < nd:
+                    raise Undecided()
+                d = k[1] % nd
+            if out[d] is not None:
+                raise Undecided()
+            out[d] = x
+        return out
+    if idx["form"] == "axis":
+        k = idx["axis"]
+        if k[0] == "name":
+            if k[1] not in dims:
+                raise Undecided()
+            d = dims.index(k[1])
+        else:
+            if not -nd <= k[1] < nd:
+                raise Undecided()
+            d = k[1] % nd
+        out[d] = idx["ix"]
+        return out
+    raise Undecided()
+
+
+def _canon(vals):
+    return [core.canon_value(v) for v in (vals.reshape(-1).tolist() if vals.dtype.kind != "O" else vals.reshape(-1))]
+
+
+def _component_matches(g, lab):
+    """one (encoded) component of a tuple label against an (encoded) axis label: numbers by value, text by text
+    (NumPy turns the tuples of a mixed int / str selection into strings, '10' stands for 10)"""
+    if lab[0] == "n":
+        if g[0] == "n":
+            return _fr(g) == _fr(lab)
+        try:
+            return g[0] == "s" and Fraction(float(g[1])) == _fr(lab)
+        except Exception:
+            return False
+    return g[0] == lab[0] and g[1:] == lab[1:]
+
+
+def oracle_boolnd(c, io, values):
+    """a[mask] with a mask of the full shape: the elements stored where the mask holds, in storage (C) order, each
+    with the labels of its cell"""
+    axes = c["array"]["axes"]
+    shape = tuple(len(ax["labels"]) for ax in axes)
+    mask = np.array(c["index"]["mask"], dtype=bool).reshape(shape)
+    if "err" in io:
+        return ["outcome"], {"values": _canon(values[mask])}
+    ok = io["ok"]
+    bad = []
+    want = _canon(values[mask])
+    if ok["values"] != want:
+        bad.append("values")
+    if ok["shape"] != [len(want)] or len(ok["dims"]) != 1:
+        bad.append("shape")
+    else:
+        cells = list(zip(*np.nonzero(mask))) if mask.ndim else []
+        got = ok["axes"][0]["labels"]
+        good = len(got) == len(cells)
+        for g, cell in zip(got, cells):
+            if not (g[0] == "t" and len(g[1]) == len(axes)
+                    and all(_component_matches(x, axes[d]["labels"][p]) for d, (x, p) in enumerate(zip(g[1], cell)))):
+                good = False
+        if not good:
+            bad.append("axes.labels")
+    return bad, {"values": want}
+
+
+def oracle_take(c, io):
+    """list of observables on which the implementation's output departs from the statement, and the expectation
+    (None when the statement does not decide the case)"""
+    axes = c["array"]["axes"]
+    nd = len(axes)
+    values = np.asarray(core.build_array(c["array"], 0).values)
+    if c["index"]["form"] == "boolnd":
+        if nd < 2 or c.get("keepdims"):
+            return None
+        return oracle_boolnd(c, io, values)
+    mode = effective_mode(c)
+    ct = call_tol(c)
+    zero_len = any(len(ax["labels"]) == 0 for ax in axes)
+    try:
+        ixs = per_dim_indices(c)
+        res, demand, undecided = [], None, False
+        for d in range(nd):
+            x = ixs[d]
+            if x is None:
+                res.append(("li", [{p} for p in range(len(axes[d]["labels"]))]))
+                continue
+            if ct is not None and axis_tol(axes[d]) is not None:
+                raise Undecided()           # which of the two tolerances wins is not stated
+            tol = ct if ct is not None else axis_tol(axes[d])
+            try:
+                res.append(resolve_dim(x, axes[d], mode, tol if mode == "label" else None, zero_len, not c.get("keepdims")))
+            except Demands as e:
+                demand = e if demand is None or e.cls is None else demand
+                res.append(None)
+        if demand is not None:
+            raise demand
+    except Undecided:
+        return None
+    except Demands as e:
+        if "err" not in io:
+            return ["outcome"], {"err": e.cls or "any"}
+        if e.cls is not None and io["err"] != e.cls:
+            return ["errclass"], {"err": e.cls}
+        return [], {"err": e.cls or "any"}
+    keep = bool(c.get("keepdims"))
+    kept = [d for d in range(nd) if res[d][0] == "li" or keep]
+    want_dims = [axes[d]["name"] for d in kept]
+    slots = [(r[1] if r[0] == "li" else [r[1]]) for r in res]           # per dimension: list of candidate sets
+    want_shape = [len(slots[d]) for d in kept]
+    exp = {"dims": want_dims, "shape": want_shape}
+    if "err" in io:
+        return ["outcome"], exp
+    ok = io["ok"]
+    bad = []
+    if ok["dims"] != want_dims:
+        bad.append("dims")
+        return bad, exp
+    if ok["shape"] != want_shape:
+        bad.append("shape")
+        return bad, exp
+    # labels: each selected label must be one of the acceptable ones; this also fixes the choice made at ties
+    chosen = [None] * nd
+    for j, d in enumerate(kept):
+        got = ok["axes"][j]["labels"]
+        lab = axes[d]["labels"]
+        if ok["axes"][j]["name"] != axes[d]["name"]:
+            bad.append("axes.name")
+        ch = []
+        for g, cand in zip(got, slots[d]):
+            hit = [p for p in sorted(cand) if _same_label(lab[p], g)]
+            if not hit:
+                bad.append("axes.labels")
+                hit = [sorted(cand)[0]]
+            ch.append(hit[0])
+        chosen[d] = ch
+    if bad:
+        return sorted(set(bad)), exp
+    # dropped dimensions: a tie between two equally near labels may be resolved either way
+    import itertools
+    free = [d for d in range(nd) if chosen[d] is None]
+    combos = 1
+    for d in free:
+        combos *= len(slots[d][0])
+    if combos > 64:
+        return None
+    cands = []
+    for pick in itertools.product(*[sorted(slots[d][0]) for d in free]):
+        sel = list(chosen)
+        for d, p in zip(free, pick):
+            sel[d] = [p]
+        sub = values[np.ix_(*[np.array(s, dtype=int) for s in sel])] if nd else values
+        cands.append(_canon(np.asarray(sub).reshape(want_shape)))
+    exp["values"] = cands[0]
+    if ok["values"] not in cands:
+        bad.append("values")
+    return bad, exp
+
+
 class C01(Prop):
     id = "C01"
     theorems = ["locateOne_spec", "locateOne_absent", "locateMany_found", "loc_list_spec", "loc_list_absent",
@@ -212,8 +657,13 @@ class C01(Prop):
     rule = ("arrays of rank 0-4, sizes 0-4, int/float/str labels stored increasing/decreasing/shuffled; per-dimension "
             "index from {present scalar, absent scalar, list with repeats/empty/absent members, ndarray, mask, full "
             "slice, Ellipsis}; spellings a[...], take, take(axis=name|pos), dict by name/position, .loc, .sel, .nloc, "
-            "tol=, .ix/.iloc/.isel/indexing='position'; both values of option indexing.by. Non-trivial = rank >= 1 "
-            "and at least one non-full index; distinct = canonical JSON of the case")
+            "tol=, .ix/.iloc/.isel/indexing='position'; both values of option indexing.by; + strata (40% of the stream): "
+            "tol= / .nloc with dict, axis= and indexing='label' forms and ndarray requests (finite, zero and infinite "
+            "tolerances), tolerance carried by the axis (Axis(tol=), uniform or differing between axes), full-shape N-d "
+            "boolean mask (ndarray or DimArray, every accessor, compress), an Axes object as index, keepdims=True in every "
+            "take form, axes whose ordering flag is already cached. Every read is judged twice: against the Lean mirror "
+            "(when it models the form) and against an oracle computed in Python on exact rationals from the statement. "
+            "Non-trivial = rank >= 1 and at least one non-full index; distinct = canonical JSON of the case")
     assumptions = ["labels unique, NaN-free, homogeneous kind per axis",
                    "values[orthogonal_indexer(key)] is outer (np.ix_) selection (conformance-tested in thorough tier)"]
     all_branches = []
@@ -224,7 +674,8 @@ class C01(Prop):
                 "loc": bases.AbstractAxis.loc, "_get_indices": bases.AbstractHasAxes._get_indices,
                 "_getaxes_ortho": bases.AbstractHasAxes._getaxes_ortho, "_getitem": bases.AbstractDimArray._getitem,
                 "expanded_indexer": indexing.expanded_indexer, "orthogonal_indexer": indexing.orthogonal_indexer,
-                "Axis.__getitem__": axes.Axis.__getitem__}
+                "Axis.__getitem__": axes.Axis.__getitem__, "Axis.__init__": axes.Axis.__init__,
+                "compress": core.DimArray.compress, "getaxes_broadcast": indexing.getaxes_broadcast}
 
     # ---------------------------------------------------------------- generation
     def gen_ix_label(self, rng, ax, allow_slice=False):
@@ -365,10 +816,216 @@ class C01(Prop):
         c["_ixkinds"] = kinds
         return c
 
+    # ---------------------------------------------------------------- strata added after the coverage audit
+    # (gen_case above is also the base of other properties' generators: it is left as it was)
+    TOLS = [["fin", 1, 8], ["fin", 1, 4], ["fin", 3, 8], ["fin", 1, 2], ["fin", 1, 1], ["inf"], ["fin", 0, 1]]
+
+    def near_ix(self, rng, ax):
+        """a near-miss request (scalar or list) on a numeric axis"""
+        def near():
+            b = rng.choice(ax["labels"])
+            v = Fraction(b[1], b[2]) + Fraction(rng.choice([-3, -1, 0, 0, 1, 2, 5]), 8)
+            return ["n", v.numerator, v.denominator]
+        if rng.random() < 0.5:
+            return ["sc", near()], "tol_scalar"
+        return ["li", [near() for _ in range(rng.randint(0, 3))]], "tol_list"
+
+    def fill_index(self, rng, c, form, mk):
+        """put the per-dimension indices made by mk(d) into the case in the given form"""
+        axes = c["array"]["axes"]
+        rank = len(axes)
+        kinds = []
+        if form == "tuple" or rank == 0:
+            nix = rng.randint(0, rank) if rng.random() < 0.3 else rank
+            ixs = []
+            for d in range(nix):
+                ix, k = mk(d); ixs.append(ix); kinds.append(k)
+            c["index"] = {"form": "tuple", "ix": ixs}
+            c["bare"] = rng.random() < 0.5
+        elif form in ("dict", "dict_pos"):
+            items = []
+            for d in rng.sample(range(rank), rng.randint(1, rank)):
+                ix, k = mk(d); kinds.append(k)
+                key = ["name", axes[d]["name"]] if form == "dict" else ["pos", d if rng.random() < 0.7 else d - rank]
+                items.append([key, ix])
+            c["index"] = {"form": "dict", "items": items}
+        else:
+            d = rng.randrange(rank)
+            ix, k = mk(d); kinds.append(k)
+            key = ["name", axes[d]["name"]] if form == "axis" else ["pos", d if rng.random() < 0.6 else d - rank]
+            c["index"] = {"form": "axis", "ix": ix, "axis": key}
+        c["_ixkinds"] = kinds
+        return c
+
+    FORM_OF = {"take_dict": "dict", "take_dict_pos": "dict_pos", "take_axis_name": "axis", "take_axis_pos": "axis_pos",
+               "sel": "dict", "isel": "dict"}
+
+    def gen_tol_forms(self, rng):
+        """tol= / .nloc in every spelling that takes it: dict by name / position, axis=, indexing='label', ndarray requests"""
+        option = rng.choice(["label", "label", "position"])
+        rank = rng.choice([1, 1, 2, 2, 3, 4])
+        arr = gen.dtype_variants(rng, gen.rand_array(rng, rank=rank, maxn=4))
+        axes = arr["axes"]
+        if option == "label":
+            sp, form = rng.choice([("take", "tuple"), ("take_dict", "dict"), ("take_dict_pos", "dict_pos"), ("take_axis_name", "axis"),
+                                   ("take_axis_pos", "axis_pos"), ("take_label", "tuple"), ("take_label", "dict"), ("take_label", "axis"),
+                                   ("take_label", "axis_pos"), ("nloc", "tuple"), ("nloc", "dict"), ("nloc", "dict_pos")])
+        else:
+            sp, form = rng.choice([("take_label", "tuple"), ("take_label", "dict"), ("take_label", "axis_pos"), ("take_label", "dict_pos"),
+                                   ("nloc", "tuple"), ("nloc", "dict")])
+        c = {"op": "take", "array": arr, "option": option, "spelling": sp, "mode": "label", "as_array": rng.random() < 0.45,
+             "_stratum": "tol_forms"}
+        if sp != "nloc":
+            c["tol"] = rng.choice(self.TOLS)
+            if rng.random() < 0.15:
+                c["keepdims"] = True
+
+        def mk(d):
+            ax = axes[d]
+            if ax["kind"] in "if" and ax["labels"] and rng.random() < 0.75:
+                return self.near_ix(rng, ax)
+            return self.gen_ix_label(rng, ax)
+        return self.fill_index(rng, c, form, mk)
+
+    def gen_axis_tol(self, rng):
+        """the tolerance is a property of the axis (Axis(values, name, tol=...)), the read is an ordinary one"""
+        option = rng.choice(["label", "label", "label", "position"])
+        rank = rng.choice([1, 1, 2, 2, 3, 4])
+        kinds = [rng.choice(["i", "f", "O"]) for _ in range(rank)]
+        kinds[rng.randrange(rank)] = rng.choice(["i", "f"])
+        arr = gen.dtype_variants(rng, gen.rand_array(rng, rank=rank, maxn=4, kinds=kinds))
+        axes = arr["axes"]
+        T = rng.choice(self.TOLS[:6])
+        some = False
+        for ax in axes:
+            if ax["kind"] in "if" and rng.random() < 0.8:
+                ax["tol"] = T; some = True
+        if not some:
+            next(ax for ax in axes if ax["kind"] in "if")["tol"] = T
+        if rng.random() < 0.15:
+            rng.choice([ax for ax in axes if ax["kind"] in "if"])["tol"] = rng.choice(self.TOLS[:6])    # tolerances differ between axes
+        posread = rng.random() < 0.1
+        if posread:
+            sp = rng.choice(["ix", "iloc", "isel", "take_position"] if option == "label" else ["getitem_position_option", "iloc", "take"])
+        elif option == "label":
+            sp = rng.choice(["getitem", "getitem", "loc", "sel", "take", "take_dict", "take_dict_pos", "take_axis_name", "take_axis_pos", "take_label"])
+        else:
+            sp = rng.choice(["loc", "sel", "take_label", "ix_from_position"])
+        form = self.FORM_OF.get(sp, "tuple")
+        if sp in ("loc", "take_label", "take_position", "iloc") and rng.random() < 0.3:
+            form = "dict"
+        c = {"op": "take", "array": arr, "option": option, "spelling": sp, "mode": "position" if posread else "label",
+             "as_array": rng.random() < 0.4, "_stratum": "axis_tol"}
+
+        def mk(d):
+            ax = axes[d]
+            if posread:
+                return self.gen_ix_pos(rng, len(ax["labels"]))
+            if ax["kind"] in "if" and ax["labels"] and rng.random() < 0.75:
+                return self.near_ix(rng, ax)
+            return self.gen_ix_label(rng, ax)
+        return self.fill_index(rng, c, form, mk)
+
+    def gen_boolnd(self, rng):
+        """a[mask] with a boolean mask of the full shape (ndarray, or DimArray as in a[a > x])"""
+        option = rng.choice(["label", "label", "position"])
+        rank = rng.choice([2, 2, 3, 3, 4])
+        arr = gen.dtype_variants(rng, gen.rand_array(rng, rank=rank, maxn=3, minn=0 if rng.random() < 0.15 else 1))
+        n = 1
+        for ax in arr["axes"]:
+            n *= len(ax["labels"])
+        p = rng.choice([0.0, 0.2, 0.5, 0.5, 0.8, 1.0])
+        mask = [rng.random() < p for _ in range(n)]
+        sp = rng.choice(["getitem", "getitem", "loc", "ix", "iloc", "take", "nloc", "take_label", "take_position", "compress"] if option == "label"
+                        else ["getitem_position_option", "loc", "iloc", "ix_from_position", "take"])
+        return {"op": "take", "array": arr, "option": option, "spelling": sp, "mode": "label", "as_array": True,
+                "index": {"form": "boolnd", "mask": mask, "as": rng.choice(["ndarray", "dimarray"])},
+                "_ixkinds": ["boolnd"], "_stratum": "boolnd"}
+
+    def gen_axes_index(self, rng):
+        """an Axes object as index: {axis name: axis values} for the axes it holds"""
+        option = rng.choice(["label", "label", "position"])
+        rank = rng.choice([1, 2, 2, 3, 3, 4])
+        arr = gen.dtype_variants(rng, gen.rand_array(rng, rank=rank, maxn=4))
+        axes = arr["axes"]
+        posread = rng.random() < 0.25
+        if posread:
+            sp = rng.choice(["ix", "iloc", "take_position"] if option == "label" else ["getitem_position_option", "iloc", "take"])
+        else:
+            sp = rng.choice(["getitem", "getitem", "take", "loc", "take_label", "nloc"] if option == "label" else ["loc", "take_label", "ix_from_position"])
+        items, kinds = [], []
+        for d in rng.sample(range(rank), rng.randint(1, rank)):
+            ax = axes[d]
+            n = len(ax["labels"])
+            if posread:
+                vs = [["n", rng.randint(-n, n - 1), 1] for _ in range(rng.randint(0, 3))] if n else []
+                if n and rng.random() < 0.08:
+                    vs.append(["n", n, 1])
+                kinds.append("list" if vs else "empty_list")
+            else:
+                vs = [rng.choice(ax["labels"]) for _ in range(rng.randint(0, 4))] if n else []
+                k = "list" if vs else "empty_list"
+                if rng.random() < 0.12:
+                    vs.insert(rng.randint(0, len(vs)), gen.absent_label(rng, ax, frac=True)); k = "list_absent"
+                kinds.append(k)
+            items.append([["name", ax["name"]], ["li", vs]])
+        return {"op": "take", "array": arr, "option": option, "spelling": sp, "mode": "position" if posread else "label",
+                "as_array": True, "index": {"form": "axes", "items": items}, "_ixkinds": kinds, "_stratum": "axes_index"}
+
+    def gen_keepdims(self, rng):
+        """keepdims=True in every spelling that takes it, scalar indices in most dimensions"""
+        option = rng.choice(["label", "label", "position"])
+        rank = rng.choice([1, 1, 2, 2, 3, 4])
+        arr = gen.dtype_variants(rng, gen.rand_array(rng, rank=rank, maxn=4))
+        axes = arr["axes"]
+        posread = rng.random() < 0.3
+        if posread:
+            sp = rng.choice(["take_position"] if option == "label" else ["take_position", "take", "take_dict", "take_axis_pos"])
+        else:
+            sp = rng.choice(["take", "take_label", "take_dict", "take_dict_pos", "take_axis_name", "take_axis_pos"] if option == "label"
+                            else ["take_label"])
+        form = self.FORM_OF.get(sp, "tuple")
+        if sp in ("take_label", "take_position"):
+            form = rng.choice(["tuple", "tuple", "dict", "axis", "axis_pos"])
+        c = {"op": "take", "array": arr, "option": option, "spelling": sp, "mode": "position" if posread else "label",
+             "as_array": rng.random() < 0.4, "keepdims": True, "_stratum": "keepdims"}
+
+        def mk(d):
+            ax = axes[d]
+            n = len(ax["labels"])
+            if n and rng.random() < 0.6:
+                if posread:
+                    return ["sc", ["n", rng.randint(-n, n - 1), 1]], "scalar"
+                return ["sc", rng.choice(ax["labels"])], "scalar"
+            return self.gen_ix_pos(rng, n) if posread else self.gen_ix_label(rng, ax)
+        return self.fill_index(rng, c, form, mk)
+
+    def gen_extra(self, rng, tier):
+        r = rng.random()
+        if r < 0.28:
+            c = self.gen_tol_forms(rng)
+        elif r < 0.48:
+            c = self.gen_axis_tol(rng)
+        elif r < 0.66:
+            c = self.gen_boolnd(rng)
+        elif r < 0.82:
+            c = self.gen_axes_index(rng)
+        else:
+            c = self.gen_keepdims(rng)
+        if rng.random() < 0.25:
+            c["warm"] = True          # the axes have been asked for their ordering before (cached flag)
+        return c
+
     def gen(self, rng, tier):
-        n = 1500 if tier == "quick" else 40000
+        n = 2400 if tier == "quick" else 64000
         for _ in range(n):
-            yield self.gen_case(rng, tier)
+            if rng.random() < 0.6:
+                c = self.gen_case(rng, tier)
+                if rng.random() < 0.15:
+                    c["warm"] = True
+                yield c
+            else:
+                yield self.gen_extra(rng, tier)
         if tier == "thorough":
             for c in self.exhaustive_small():
                 yield c
@@ -404,7 +1061,7 @@ class C01(Prop):
         old = da.get_option("indexing.by")
         try:
             da.set_option("indexing.by", c["option"])
-            a = core.build_array(c["array"], 0)
+            a = build_case_array(c)
             self._last = a
             before = core.obs_array(a)
             c2 = copy.deepcopy(c)
@@ -416,11 +1073,62 @@ class C01(Prop):
         finally:
             da.set_option("indexing.by", old)
 
+    DUMMY = {"op": "union", "a": {"name": "x", "kind": "i", "labels": []}, "b": {"name": "x", "kind": "i", "labels": []}, "join": "outer"}
+
+    def lean_cfg(self, c):
+        """configuration of the read for the Lean mirror, or None when the mirror has no such read: a full-shape
+        mask (compress), tolerances that differ between the dimensions they matter for"""
+        if c["index"]["form"] == "boolnd":
+            return None
+        cfg = cfg_of(c)
+        axes = c["array"]["axes"]
+        if any(ax.get("tol") is not None for ax in axes):
+            if cfg["tol"] is not None:
+                return None
+            if effective_mode(c) == "label":
+                try:
+                    ixs = per_dim_indices(c)
+                except Undecided:
+                    return None
+                tols = []
+                for ax, x in zip(axes, ixs):
+                    if x is not None and x[0] in ("sc", "li") and ax["kind"] in "if":
+                        tols.append(ax.get("tol"))
+                if any(t != tols[0] for t in tols):
+                    return None
+                if tols:
+                    cfg["tol"] = tols[0]          # one tolerance for every dimension where it matters = tol= of the call
+        if cfg["tol"] is not None and cfg["tol"][0] == "fin" and cfg["tol"][1] == 0:
+            cfg["tol"] = None                     # a zero tolerance is an exact lookup
+        return cfg
+
     def request(self, c):
-        return {"op": "take", "arrays": [core.lean_array(gen.clean(c["array"]), None)], "index": c["index"],
-                "cfg": cfg_of(c)}
+        cfg = self.lean_cfg(c)
+        if cfg is None:
+            return dict(self.DUMMY)
+        index = c["index"]
+        if index["form"] == "axes":
+            index = {"form": "dict", "items": index["items"]}       # the mapping it stands for
+        return {"op": "take", "arrays": [core.lean_array(gen.clean(c["array"]), None)], "index": index, "cfg": cfg}
+
+    def verdict(self, c, io):
+        """the oracle's verdict on the implementation's output (computed once per case)"""
+        if "_oracle" not in io:
+            r = oracle_take(c, {k: v for k, v in io.items() if k != "_oracle"})
+            io["_oracle"] = {"decided": False} if r is None else {"decided": True, "bad": r[0], "expect": r[1]}
+        return io["_oracle"]
 
     def judge(self, c, io, ans):
+        short = lambda o: o if "err" in o else {k: o["ok"][k] for k in ("dims", "shape", "values")}
+        v = self.verdict(c, io)
+        if v["decided"] and v["bad"]:
+            # a failing input of the property itself
+            return {"kind": "P", "differs": list(v["bad"]), "pre": True, "by": "oracle", "expected": v["expect"],
+                    "impl": short({k: x for k, x in io.items() if k != "_oracle"})}
+        if io.get("operand_modified"):
+            return {"kind": "P", "differs": ["operand_modified"], "pre": True}
+        if self.lean_cfg(c) is None:
+            return None
         lean = ans["lib"]
         if "ok" in lean:
             a = core.build_array(c["array"], 0)
@@ -433,13 +1141,11 @@ class C01(Prop):
         bad = core.diff_obs(io, lean)
         if "ok" in io and "ok" in lean and io["ok"]["scalar"] != lean["ok"]["scalar"]:
             bad.append("scalar")
-        if io.get("operand_modified"):
-            bad.append("operand_modified")
         pre = self.pre(c)
         mm = self.classify(bad, pre)
         if mm:
-            mm["impl"] = io if "err" in io else {k: io["ok"][k] for k in ("dims", "shape", "values")}
-            mm["lean"] = lean if "err" in lean else {k: lean["ok"][k] for k in ("dims", "shape", "values")}
+            mm["impl"] = short(io)
+            mm["lean"] = short(lean)
         return mm
 
     P_OBS = Prop.P_OBS + ("scalar", "operand_modified")
@@ -459,10 +1165,24 @@ class C01(Prop):
         for ax in c["array"]["axes"]:
             f["order:" + ax.get("_order", "?")] = 1
             f["kind:" + ax["kind"]] = 1
+        f["stratum"] = c.get("_stratum", "exhaustive" if c.get("_ixkinds") == ["exh"] else "base")
+        f["tol"] = "nloc" if c["spelling"] == "nloc" else ("none" if c.get("tol") is None else ("inf" if c["tol"][0] == "inf" else
+                                                                   ("zero" if c["tol"][1] == 0 else "finite")))
+        ats = [ax["tol"] for ax in c["array"]["axes"] if ax.get("tol") is not None]
+        f["axis_tol"] = "none" if not ats else ("uniform" if all(t == ats[0] for t in ats) else "mixed")
+        f["keepdims"] = bool(c.get("keepdims"))
+        f["requests_as"] = "ndarray" if c.get("as_array") else "list"
+        f["warm"] = bool(c.get("warm"))
+        if c["index"]["form"] == "boolnd":
+            f["mask_as"] = c["index"].get("as")
+            f["mask_selected"] = min(sum(1 for b in c["index"]["mask"] if b), 5)
+        f["compared_with"] = "mirror+oracle" if self.lean_cfg(c) is not None else "oracle"
+        v = self.verdict(c, io)
+        f["oracle"] = "undecided" if not v["decided"] else ("error_demanded" if "err" in v["expect"] else "result_demanded")
         return f
 
     def size(self, c):
-        return sum(len(ax["labels"]) for ax in c["array"]["axes"]) * 10 + len(str(c["index"]))
+        return sum(len(ax["labels"]) for ax in c["array"]["axes"]) * 10 + len(str(c["index"])) + (5 if c.get("warm") else 0)
 
     def snippet(self, c):
         return ("import sys; sys.path.insert(0, '/verif/harness'); import json, core; from props.c01 import PROP; "
@@ -471,6 +1191,23 @@ class C01(Prop):
     def reducers(self, c):
         # drop one dimension that is fully sliced, shorten lists
         out = []
+        for k in ("warm", "keepdims"):
+            if c.get(k):
+                c2 = copy.deepcopy(c)
+                del c2[k]
+                out.append(c2)
+        if c["index"]["form"] in ("dict", "axes") and len(c["index"]["items"]) > 1:
+            for j in range(len(c["index"]["items"])):
+                c2 = copy.deepcopy(c)
+                del c2["index"]["items"][j]
+                out.append(c2)
+        if c["index"]["form"] in ("dict", "axes"):
+            for j, (k, x) in enumerate(c["index"]["items"]):
+                if x[0] == "li" and len(x[1]) > 1:
+                    for i in range(len(x[1])):
+                        c2 = copy.deepcopy(c)
+                        del c2["index"]["items"][j][1][1][i]
+                        out.append(c2)
         if c["index"]["form"] == "tuple":
             ixs = c["index"]["ix"]
             for d in range(len(c["array"]["axes"])):
